@@ -81,6 +81,24 @@ CLAIMED = {
              "Tied to the code by a bitwise differential (setters vs Difficulty, mode builders, round trip, clamps, shuffled "
              "orders, irrelevant setters).",
         tech="Coq proof over a Difficulty model and translator-generated dispatch tables + bitwise differential"),
+    "C10": dict(
+        text="Coq theorem (unbounded push sequences): for every sequence of 64-bit words other than a positive NaN the compact "
+             "strain list and the raw_strains Vec<f64> have the same length, iteration, into_vec and sorted non-zero vector "
+             "(refutation lemma shows the precondition is necessary; every exported peak is scanned for NaN); the RefCell and "
+             "RwLock cells are one state machine up to how a conflict fails, and the library's access pattern never conflicts; "
+             "cfg(feature) sites regenerated from source are only the two inner modules. Tied to the code by the compact-list "
+             "op-sequence differential and by running the same seeded workload under four separately built binaries "
+             "(numeric comparison, -0 = 0). `sum` equality up to the sign of zero is not proved (partial).",
+        tech="Coq refinement proof (compact vs raw strain list) + four-feature-build differential"),
+    "C20": dict(
+        text="Coq theorems: calculations modelled as deterministic steppers over private state with a shared read-only "
+             "environment give the same final states under EVERY schedule (permutation of steps), in particular the sequential "
+             "one; handing a stepper between threads is invisible; the sync cells never conflict. What makes the model apply to "
+             "the code - no statics, thread-locals, lazy globals or shared interior mutability - is a kernel-evaluated theorem "
+             "over the effect inventory REGENERATED from the source on every run. OS scheduling, memory ordering and std's "
+             "Arc/RwLock are outside the model: exercised by thread pools of 2-16 threads with shuffled/duplicated assignment, "
+             "a many-round stress on small seeded jobs, and per-step thread hand-over of gradual calculators with sync (partial).",
+        tech="Coq confluence proof over an interleaving model + translator-generated effect inventory + threaded differential"),
     "C11": dict(
         text="Coq theorems (unbounded op sequences) that the compact strain list refines a plain list, that transmute_into_vec's "
              "and from_raw_parts' contracts hold and that zero counts never overflow; model tied to src/util/strains_vec.rs by "
